@@ -315,7 +315,9 @@ inline std::vector<Pass> passMenu(bool thorough) {
                          {3, 1, 2}, {3, 1, 3}, {3, 2, 3}};
   if (thorough) {
     m.push_back({2, 1, 3}); m.push_back({2, 5, 3}); m.push_back({3, 2, 4}); m.push_back({3, 3, 2}); m.push_back({0, 1, 0});
-    m.push_back({1, 2, 0}); m.push_back({2, 2, 0}); m.push_back({3, 1, 1});
+    // (runShifts with a window of 0 cells is not offered: its row loop advances by the window size, and the public entry point
+    //  only calls it with at least 2 cells)
+    m.push_back({1, 2, 0}); m.push_back({2, 2, 1}); m.push_back({3, 1, 1});
   }
   return m;
 }
@@ -759,6 +761,7 @@ inline void enumerateDetailed(bool thorough, Mode mode, const std::function<void
 
 inline vf::Verdicts evalDetailed(const Spec &s, vf::Ctx &ctx, Mode mode, bool thorough) {
   Sink sink;
+  if (!inDomain(s)) { ctx.count("skipped_out_of_domain"); return sink.out; }
   if (s.aux == 0) { ctx.count("toplevel_runs"); evalTopLevel(s, ctx, mode, sink); }
   else if (s.aux == 1) { ctx.count("move_graphs"); evalMoves(s, ctx, mode, sink, thorough ? 60000 : 20000); }
   else { ctx.count("pass_graphs"); evalPasses(s, ctx, mode, sink, thorough ? 3 : 2, thorough); }
